@@ -183,6 +183,8 @@ type StressEvent struct {
 
 type StressResult struct {
 	Err       string
+	Phases    []string // Phases[k] = kind of the consensus call that moved the phase counter from base+k to base+k+1
+	PhaseBase int64
 	Consensus [][]byte // protobuf responses of every consensus call in order
 	Events    []StressEvent
 }
